@@ -73,6 +73,19 @@ fn outcome_tag<T>(res: &Option<T>) -> String {
     if res.is_some() { "ok".to_string() } else { format!("panic_{}", panic_kind(&last_panic())) }
 }
 
+/// In the worker process: announce the real call about to be made (flushed before the call), so that the
+/// supervisor can name the input if the call aborts the process (`get_unchecked` precondition check of the
+/// debug build, any other non-unwinding panic).
+static IN_WORKER: std::sync::atomic::AtomicBool = std::sync::atomic::AtomicBool::new(false);
+fn pre(v: serde_json::Value) {
+    if IN_WORKER.load(std::sync::atomic::Ordering::Relaxed) {
+        use std::io::Write;
+        let mut o = std::io::stdout().lock();
+        let _ = writeln!(o, "PRE {}", v);
+        let _ = o.flush();
+    }
+}
+
 // ------------------------------------------------------------------------------------------------
 // 1. sentinel searches
 // ------------------------------------------------------------------------------------------------
@@ -86,6 +99,7 @@ fn op_link_opt(ctx: &mut Ctx, r: &mut Rng) {
     let on_path: Vec<usize> = (0..np).map(|_| r.usize(1, k)).collect();
     let bl: Vec<LinkIdx> = blocking.iter().map(|&x| LinkIdx::new(x as u32)).collect();
     let op: Vec<LinkIdx> = on_path.iter().map(|&x| LinkIdx::new(x as u32)).collect();
+    pre(json!({"op": "c05_link_opt", "args": format!("{} {}", nats(&blocking), nats(&on_path))}));
     let res = guard(|| fp::verif_link_opt_type_new(&bl, &op));
     let ans = answer(&res, |t| format!("{} {} {}", t.0, t.1, t.2));
     ctx.op(P, "c05_link_opt", &format!("{} {}", nats(&blocking), nats(&on_path)), &ans);
@@ -123,6 +137,7 @@ fn op_calc_sent(ctx: &mut Ctx, r: &mut Rng) {
     }
     let div_idx = if class == 9 { r.usize(0, n + 2) } else if n > 0 { r.usize(0, n - 1) } else { 0 };
     let nodes: Vec<DivergeNode> = dn.iter().map(|&(t, d)| DivergeNode::new(tidx(t as u64), tidx(d as u64))).collect();
+    pre(json!({"op": "c05_calc_sent", "args": format!("{} {} {}", div_idx, s, seq(&dn, |x| format!("{} {}", x.0, x.1)))}));
     let res = guard(|| fp::verif_calc_idx_sentinels(div_idx, tidx(s as u64), &nodes));
     let ans = answer(&res, |v| format!("{} {}", v.0, v.1));
     ctx.op(P, "c05_calc_sent", &format!("{} {} {}", div_idx, s, seq(&dn, |x| format!("{} {}", x.0, x.1))), &ans);
@@ -172,10 +187,11 @@ fn op_find_int(ctx: &mut Ctx, r: &mut Rng) {
     let lot = if lot.0 == 1 { (1, lot.1, 0) } else if lot.0 == 0 || lot.0 == 3 { (lot.0, 0, 0) } else { lot };
     let mut p: Vec<LinkIdx> = path.iter().map(|&x| LinkIdx::new(x as u32)).collect();
     let bl: Vec<TrainIdx> = blocked.iter().map(|&x| tidx(x as u64)).collect();
+    let args = format!("{} {} {} {} {} {} {}", idx_split, idx_sentinel, lot.0, lot.1, lot.2, nats(&path), nats(&blocked));
+    pre(json!({"op": "c05_find_int", "args": args}));
     let res = guard(|| fp::verif_find_train_intersect(idx_split, idx_sentinel, lot, &mut p, &bl));
     let after: Vec<usize> = p.iter().map(|x| x.idx()).collect();
     let ans = answer(&res, |v| format!("{} {}", v, nats(&after)));
-    let args = format!("{} {} {} {} {} {} {}", idx_split, idx_sentinel, lot.0, lot.1, lot.2, nats(&path), nats(&blocked));
     ctx.op(P, "c05_find_int", &args, &ans);
     ctx.count(&format!("c05.find_int.kind{}.{}", lot.0, outcome_tag(&res)));
     if let Some(v) = res {
@@ -232,6 +248,8 @@ fn op_views(ctx: &mut Ctx, r: &mut Rng, which: u8) {
     };
     let mut buf: Vec<TrainIdx> = tb.iter().map(|&x| tidx(x as u64)).collect();
     let (a, b) = (mk_view(v1), mk_view(v2));
+    let name = ["c05_add_block", "c05_add_all", "c05_concat"][which as usize];
+    pre(json!({"op": name, "args": format!("{} {} {}", nats(&tb), view_tok(v1), view_tok(v2))}));
     let res = guard(|| match which {
         0 => fp::verif_add_blocking_trains(&mut buf, &a, &b),
         1 => fp::verif_add_all_blocking_trains(&mut buf, &a, &b),
@@ -239,7 +257,6 @@ fn op_views(ctx: &mut Ctx, r: &mut Rng, which: u8) {
     });
     let after: Vec<usize> = buf.iter().map(tval).collect();
     let ans = answer(&res, |v| format!("{} {} {}", nats(&after), v.idx_begin, v.idx_end));
-    let name = ["c05_add_block", "c05_add_all", "c05_concat"][which as usize];
     ctx.op(P, name, &format!("{} {} {}", nats(&tb), view_tok(v1), view_tok(v2)), &ans);
     ctx.count(&format!("c05.views.{}.{}", name, outcome_tag(&res)));
     if let Some(v) = res {
@@ -274,19 +291,8 @@ fn op_views(ctx: &mut Ctx, r: &mut Rng, which: u8) {
 }
 
 /// Arguments on which the model predicts `oob` (raw access out of range = UB): `Range(min, diff)` with
-/// `min >= 2^32`, which `LinkOptType::new` never produces.  Executed in a child process; the debug build's
-/// `get_unchecked` precondition check aborts it.
-fn ub_probe_child() {
-    if let Ok(spec) = std::env::var("VERIF_C05_UBPROBE") {
-        let v: Vec<usize> = spec.split(',').filter_map(|x| x.parse().ok()).collect();
-        // spec: split, sentinel, min, diff, path...
-        let mut p: Vec<LinkIdx> = v[4..].iter().map(|&x| LinkIdx::new(x as u32)).collect();
-        let bl: Vec<TrainIdx> = vec![None; 64];
-        let res = std::panic::catch_unwind(std::panic::AssertUnwindSafe(|| fp::verif_find_train_intersect(v[0], v[1], (2, v[2], v[3]), &mut p, &bl)));
-        std::process::exit(if res.is_ok() { 0 } else { 3 });
-    }
-}
-
+/// `min >= 2^32`, which `LinkOptType::new` never produces.  The debug build's `get_unchecked` precondition
+/// check aborts the worker process; the supervisor records the answer `abort` (no finding: `ub_expected`).
 fn op_ub_probe(ctx: &mut Ctx, r: &mut Rng) {
     let n = r.usize(2, 6);
     let path: Vec<usize> = (0..n).map(|_| r.usize(1, 9)).collect();
@@ -294,26 +300,21 @@ fn op_ub_probe(ctx: &mut Ctx, r: &mut Rng) {
     let split = r.usize(0, sentinel - 1);
     let min = (1usize << 32) * r.usize(1, 3) + r.usize(1, 9);
     let diff = r.usize(0, 16);
-    let spec: Vec<String> = [split, sentinel, min, diff].iter().chain(path.iter()).map(|x| x.to_string()).collect();
-    let exe = match std::env::current_exe() {
-        Ok(e) => e,
-        Err(_) => return,
-    };
-    let st = std::process::Command::new(exe)
-        .args(["run", "c05", "--out", "/tmp"])
-        .env("VERIF_C05_UBPROBE", spec.join(","))
-        .stdout(std::process::Stdio::null())
-        .stderr(std::process::Stdio::null())
-        .status();
-    let ans = match st {
-        Ok(s) if s.code() == Some(0) => "ok-returned".to_string(),
-        Ok(s) if s.code() == Some(3) => "panic".to_string(),
-        Ok(s) if s.code().is_none() => "abort".to_string(), // killed by a signal (SIGABRT from the UB check)
-        _ => return,
-    };
     let blocked = vec![0usize; 64];
-    ctx.op(P, "c05_find_int", &format!("{} {} 2 {} {} {} {}", split, sentinel, min, diff, nats(&path), nats(&blocked)), &ans);
-    ctx.count(&format!("c05.ub_probe.{}", ans));
+    let args = format!("{} {} 2 {} {} {} {}", split, sentinel, min, diff, nats(&path), nats(&blocked));
+    if !IN_WORKER.load(std::sync::atomic::Ordering::Relaxed) {
+        // never executed in the supervising process itself
+        ctx.count("c05.ub_probe.skipped_no_worker");
+        return;
+    }
+    pre(json!({"op": "c05_find_int", "args": args, "ub_expected": true}));
+    let mut p: Vec<LinkIdx> = path.iter().map(|&x| LinkIdx::new(x as u32)).collect();
+    let bl: Vec<TrainIdx> = vec![None; 64];
+    let res = guard(|| fp::verif_find_train_intersect(split, sentinel, (2, min, diff), &mut p, &bl));
+    // reached only if the process survived
+    let ans = if res.is_some() { "ok-returned".to_string() } else { format!("panic {}", panic_kind(&last_panic())) };
+    ctx.op(P, "c05_find_int", &args, &ans);
+    ctx.count("c05.ub_probe.survived");
 }
 
 // ------------------------------------------------------------------------------------------------
@@ -753,7 +754,15 @@ fn scenario_json(sc: &Scenario, class: &str, seed: u64) -> serde_json::Value {
 
 fn run_scenario(ctx: &mut Ctx, rr: &mut Rng, max_trains: usize, budget_s: u64) {
     let case_seed = rr.0;
-    let (sc, class) = gen_sc(rr, max_trains);
+    let (mut sc, class) = gen_sc(rr, max_trains);
+    // replay aid: VERIF_C05_KEEP=1,3 keeps only these trains (1-based) of the generated scenario
+    if let Ok(keep) = std::env::var("VERIF_C05_KEEP") {
+        let keep: Vec<usize> = keep.split(',').filter_map(|x| x.parse().ok()).collect();
+        let mut k = 0;
+        sc.trains.retain(|_| { k += 1; keep.contains(&k) });
+        let mut k = 0;
+        sc.dirs.retain(|_| { k += 1; keep.contains(&k) });
+    }
     ctx.count(&format!("c05.scenario.class.{}", class));
     if sc.dn.net.validate().is_err() {
         ctx.count("c05.scenario.net_invalid");
@@ -779,6 +788,7 @@ fn run_scenario(ctx: &mut Ctx, rr: &mut Rng, max_trains: usize, budget_s: u64) {
     let input = scenario_json(&sc, class, case_seed);
 
     // ---- the real run_dispatch under a watchdog
+    pre(json!({"scenario": input, "phase": "run_dispatch"}));
     let (tx, rx) = std::sync::mpsc::channel();
     {
         let net = sc.dn.net.clone();
@@ -838,7 +848,16 @@ fn run_scenario(ctx: &mut Ctx, rr: &mut Rng, max_trains: usize, budget_s: u64) {
                 for cl in ["route_missing", "starts_on_origin", "departs_not_early", "ends_on_destination", "contiguous", "times_monotone", "hop_not_faster_than_free_run"] {
                     ctx.checked(P, cl);
                 }
+                // does the train's estimated-time network reach a destination at all?
+                let est_reaches_dest = ets[i].val.iter().any(|e| e.link_event.est_type == EstType::Arrive && sc.trains[i].dests.iter().any(|d| d.link_idx == e.link_event.link_idx));
+                if !est_reaches_dest { ctx.count("c05.scenario.est_net_lacks_destination"); }
                 for (cl, detail) in check_route(net, &sc.trains[i], &ets[i].val, rt) {
+                    // a route that stops short because make_est_times built a network without any arrive event on a
+                    // destination link (trip shorter than its 5 mile look-ahead) is reported under its own clause
+                    let (cl, detail) = if cl == "ends_on_destination" && !est_reaches_dest {
+                        ("ends_on_destination_est_net_lacks_destination", format!("{} (the estimated-time network accepted by make_est_times has no arrive event on any destination link; returned route covers {:.0} m)", detail,
+                            rt.iter().map(|x| net[x.0].length.value).sum::<f64>()))
+                    } else { (cl, detail) };
                     ctx.fail(P, cl, "scenario", format!("train {}: {}", i + 1, detail), json!({"scenario": input, "plan": routes}));
                 }
                 ctx.checked(P, "times_finite");
@@ -876,6 +895,7 @@ fn run_scenario(ctx: &mut Ctx, rr: &mut Rng, max_trains: usize, budget_s: u64) {
     }
 
     // ---- the same scenario through the manual copy of the outer loop
+    pre(json!({"scenario": input, "phase": "harness copy of the outer loop"}));
     let man = guard(|| manual_dispatch(net, &sc.trains, ets.clone()));
     ctx.checked(P, "manual_loop_equals_run_dispatch");
     let agree = match (&man, &real) {
@@ -956,27 +976,227 @@ fn run_scenario(ctx: &mut Ctx, rr: &mut Rng, max_trains: usize, budget_s: u64) {
     }
 }
 
-pub fn run(ctx: &mut Ctx, r: &mut Rng, tier: &str) {
-    ub_probe_child();
+#[derive(Clone, Copy, PartialEq)]
+enum Item {
+    Fns,
+    UbProbe,
+    Scenario,
+}
+
+fn items(tier: &str) -> Vec<Item> {
     let thorough = tier == "thorough";
-    let n_fn = if thorough { 6000 } else { 400 };
-    for _ in 0..n_fn {
-        let mut rr = r.fork();
-        op_link_opt(ctx, &mut rr);
-        op_calc_sent(ctx, &mut rr);
-        op_find_int(ctx, &mut rr);
-        op_find_int(ctx, &mut rr);
-        for w in 0..3 {
-            op_views(ctx, &mut rr, w);
+    let mut v = vec![Item::Fns; if thorough { 6000 } else { 500 }];
+    v.extend(vec![Item::UbProbe; if thorough { 12 } else { 3 }]);
+    v.extend(vec![Item::Scenario; if thorough { 1200 } else { 120 }]);
+    v
+}
+
+fn run_item(ctx: &mut Ctx, it: Item, rr: &mut Rng) {
+    match it {
+        Item::Fns => {
+            op_link_opt(ctx, rr);
+            op_calc_sent(ctx, rr);
+            op_find_int(ctx, rr);
+            op_find_int(ctx, rr);
+            for w in 0..3 {
+                op_views(ctx, rr, w);
+            }
+        }
+        Item::UbProbe => op_ub_probe(ctx, rr),
+        Item::Scenario => run_scenario(ctx, rr, 8, 20),
+    }
+}
+
+/// everything one item added to a (fresh) context, as one JSON line
+fn ctx_to_json(c: &Ctx) -> serde_json::Value {
+    json!({
+        "ops": c.ops.iter().zip(c.expect.iter()).zip(c.op_props.iter()).map(|((o, e), p)| {
+            // "c<k> <op> <args>" / "c<k> <answer>"
+            let mut it = o.splitn(3, ' ');
+            let _ = it.next();
+            let op = it.next().unwrap_or("");
+            let args = it.next().unwrap_or("");
+            let ans = e.splitn(2, ' ').nth(1).unwrap_or("");
+            json!([p, op, args, ans])
+        }).collect::<Vec<_>>(),
+        "findings": c.findings.iter().map(|f| json!([f.property, f.clause, f.case, f.detail, f.input])).collect::<Vec<_>>(),
+        "stats": c.stats, "checks": c.oracle_checks, "samples": c.samples,
+    })
+}
+
+fn merge_json(ctx: &mut Ctx, v: &serde_json::Value) {
+    for o in v["ops"].as_array().into_iter().flatten() {
+        let g = |i: usize| o[i].as_str().unwrap_or("").to_string();
+        let (props, op, args, ans) = (g(0), g(1), g(2), g(3));
+        // ctx.op counts "op.<name>" itself
+        ctx.op(&props, &op, &args, &ans);
+    }
+    for f in v["findings"].as_array().into_iter().flatten() {
+        let g = |i: usize| f[i].as_str().unwrap_or("").to_string();
+        ctx.fail(&g(0), &g(1), &g(2), g(3), f[4].clone());
+    }
+    for (k, n) in v["stats"].as_object().into_iter().flatten() {
+        if !k.starts_with("op.") {
+            ctx.count_n(k, n.as_u64().unwrap_or(0));
         }
     }
-    for _ in 0..(if thorough { 12 } else { 3 }) {
-        let mut rr = r.fork();
-        op_ub_probe(ctx, &mut rr);
+    for (k, n) in v["checks"].as_object().into_iter().flatten() {
+        *ctx.oracle_checks.entry(k.clone()).or_insert(0) += n.as_u64().unwrap_or(0);
     }
-    let n_sc = if thorough { 600 } else { 60 };
-    for _ in 0..n_sc {
+    for (k, xs) in v["samples"].as_object().into_iter().flatten() {
+        for x in xs.as_array().into_iter().flatten() {
+            ctx.sample(k, x.clone());
+        }
+    }
+}
+
+/// worker process: runs the items from `start` on, one `REC` line per finished item
+fn worker_main(spec: &str, tier: &str) -> ! {
+    use std::io::Write;
+    IN_WORKER.store(true, std::sync::atomic::Ordering::Relaxed);
+    let mut it = spec.split(',');
+    let base: u64 = it.next().and_then(|x| x.parse().ok()).unwrap_or(0);
+    let start: usize = it.next().and_then(|x| x.parse().ok()).unwrap_or(0);
+    let its = items(tier);
+    let mut r = Rng(base);
+    let mut hangs = 0;
+    for (i, item) in its.iter().enumerate() {
         let mut rr = r.fork();
-        run_scenario(ctx, &mut rr, 8, 20);
+        if i < start {
+            continue;
+        }
+        {
+            let mut o = std::io::stdout().lock();
+            let _ = writeln!(o, "ITEM {}", i);
+            let _ = o.flush();
+        }
+        let mut c = Ctx::default();
+        run_item(&mut c, *item, &mut rr);
+        hangs += c.stats.get("c05.dispatch.hang").copied().unwrap_or(0);
+        let mut o = std::io::stdout().lock();
+        let _ = writeln!(o, "REC {}", ctx_to_json(&c));
+        let _ = o.flush();
+        // every hang leaves a spinning thread behind: stop after a few (each is already a finding)
+        if hangs >= 3 {
+            let _ = writeln!(o, "STOP hangs");
+            let _ = o.flush();
+            break;
+        }
+    }
+    std::process::exit(0);
+}
+
+/// supervisor: the real code runs in worker processes; an abort of a worker is attributed to the input
+/// announced last, recorded (`abort` answer, finding unless it was the designated UB probe) and the work
+/// continues with the next item
+fn supervise(ctx: &mut Ctx, base: u64, tier: &str) -> bool {
+    use std::io::BufRead;
+    let n = items(tier).len();
+    let exe = match std::env::current_exe() {
+        Ok(e) => e,
+        Err(_) => return false,
+    };
+    let mut start = 0usize;
+    let mut restarts = 0;
+    while start < n {
+        let child = std::process::Command::new(&exe)
+            .args(["run", "c05", "--tier", tier, "--out", "/tmp"])
+            .env("VERIF_C05_WORKER", format!("{},{}", base, start))
+            .stdout(std::process::Stdio::piped())
+            .stderr(std::process::Stdio::null())
+            .spawn();
+        let mut child = match child {
+            Ok(c) => c,
+            Err(_) => return start > 0,
+        };
+        let out = child.stdout.take().unwrap();
+        let mut cur_item: Option<usize> = None;
+        let mut last_pre: Option<serde_json::Value> = None;
+        let mut stopped = false;
+        for line in std::io::BufReader::new(out).lines() {
+            let line = match line { Ok(l) => l, Err(_) => break };
+            if let Some(x) = line.strip_prefix("ITEM ") {
+                cur_item = x.trim().parse().ok();
+                last_pre = None;
+            } else if let Some(x) = line.strip_prefix("PRE ") {
+                last_pre = serde_json::from_str(x).ok();
+            } else if let Some(x) = line.strip_prefix("REC ") {
+                if let Ok(v) = serde_json::from_str::<serde_json::Value>(x) {
+                    merge_json(ctx, &v);
+                }
+                if let Some(i) = cur_item { start = i + 1; }
+                cur_item = None;
+                last_pre = None;
+            } else if line.starts_with("STOP") {
+                stopped = true;
+            }
+        }
+        let status = child.wait();
+        if stopped {
+            ctx.count("c05.dispatch.stopped_after_hangs");
+            return true;
+        }
+        let clean = matches!(&status, Ok(s) if s.code() == Some(0));
+        if clean && cur_item.is_none() {
+            break;
+        }
+        // the worker died inside item `cur_item`
+        restarts += 1;
+        let died_how = match &status { Ok(s) => format!("{}", s), Err(e) => format!("{}", e) };
+        let pre = last_pre.unwrap_or(json!({}));
+        let ub_expected = pre["ub_expected"].as_bool().unwrap_or(false);
+        if let (Some(op), Some(args)) = (pre["op"].as_str(), pre["args"].as_str()) {
+            ctx.op(P, op, args, "abort");
+            if ub_expected {
+                ctx.count("c05.ub_probe.abort");
+            } else {
+                ctx.count("c05.abort.sentinel_function");
+                ctx.fail(P, "memory_safety_abort", op, format!("the real function aborted the process ({}) — raw access out of range caught by the debug build's get_unchecked precondition check, or another non-unwinding panic — on: {} {}", died_how, op, args), pre.clone());
+            }
+        } else if pre.get("scenario").is_some() {
+            ctx.count("c05.abort.dispatch");
+            ctx.fail(P, "abort_in_dispatch", "scenario", format!("the process aborted ({}) during {}: non-unwinding panic (unsafe precondition violated?) on inputs accepted by validation and make_est_times", died_how, pre["phase"].as_str().unwrap_or("?")), pre["scenario"].clone());
+        } else {
+            ctx.count("c05.abort.unattributed");
+            ctx.fail(P, "abort_unattributed", "worker", format!("worker process died ({}) in item {:?} before announcing a call", died_how, cur_item), json!({"item": cur_item}));
+        }
+        start = cur_item.map(|i| i + 1).unwrap_or(start + 1);
+        if restarts > 200 {
+            ctx.count("c05.abort.too_many");
+            break;
+        }
+    }
+    true
+}
+
+pub fn run(ctx: &mut Ctx, r: &mut Rng, tier: &str) {
+    if let Ok(spec) = std::env::var("VERIF_C05_WORKER") {
+        worker_main(&spec, tier);
+    }
+    // replay of one scenario: VERIF_C05_CASE=<case_seed of a finding's input>
+    if let Ok(seed) = std::env::var("VERIF_C05_CASE") {
+        if let Ok(seed) = seed.parse::<u64>() {
+            let mut rr = Rng(seed);
+            run_scenario(ctx, &mut rr, 8, 20);
+            for fd in &ctx.findings {
+                eprintln!("FINDING {} {}", fd.clause, fd.detail);
+            }
+            eprintln!("stats {:?}", ctx.stats);
+            return;
+        }
+    }
+    let base = r.0;
+    let its = items(tier);
+    for _ in 0..its.len() {
+        let _ = r.fork();
+    }
+    if !supervise(ctx, base, tier) {
+        // no worker process available: run in-process (an abort then takes the whole harness down)
+        ctx.count("c05.in_process_fallback");
+        let mut r2 = Rng(base);
+        for item in its {
+            let mut rr = r2.fork();
+            run_item(ctx, item, &mut rr);
+        }
     }
 }
